@@ -303,9 +303,8 @@ type family struct {
 	outputs func(r *core.Run, ci int, ps []*progCase) (plain string, outs []string, vidx []int, sref int)
 }
 
-func mainFamily(r *core.Run, ps []*progCase) *family {
-	variants := variantsFor(r)
-	f := &family{name: "main", ps: ps, variants: variants, input: chunkSource}
+func mainFamily(r *core.Run, name string, ps []*progCase, variants []variant) *family {
+	f := &family{name: name, ps: ps, variants: variants, input: chunkSource}
 	f.outputs = func(r *core.Run, ci int, ps []*progCase) (string, []string, []int, int) {
 		src := chunkSource(ps)
 		plain, _ := transform(src, api.LoaderJS, false, false, false, false, nil)
@@ -347,7 +346,7 @@ func programBinding(r *core.Run, cfgName string) {
 
 	// render, de-duplicate
 	seen := map[string]bool{}
-	var uniq, xcs []*progCase
+	var uniq, cxs, xcs []*progCase
 	kinds := map[string]int{}
 	pairs := map[string]map[int]bool{}
 	for _, p := range progs {
@@ -369,11 +368,24 @@ func programBinding(r *core.Run, cfgName string) {
 		kinds[p.Kind]++
 		if p.Kind == "xc" {
 			xcs = append(xcs, p)
+		} else if p.Kind == "cx" && r.Thorough() {
+			cxs = append(cxs, p)
 		} else {
 			uniq = append(uniq, p)
 		}
 	}
-	fams := []*family{mainFamily(r, uniq)}
+	fams := []*family{mainFamily(r, "main", uniq, variantsFor(r))}
+	if len(cxs) > 0 {
+		// thorough: the cx programs contain no function or class, so keep-names cannot matter:
+		// all 8 flag subsets and the bundles, without the keep-names twins
+		var vs []variant
+		for _, v := range variantsFor(r) {
+			if !v.keepNames {
+				vs = append(vs, v)
+			}
+		}
+		fams = append(fams, mainFamily(r, "cx", cxs, vs))
+	}
 	if len(xcs) > 0 {
 		fams = append(fams, xcFamily(r, xcs))
 	}
@@ -386,7 +398,7 @@ func programBinding(r *core.Run, cfgName string) {
 	r.Set("option_sets", vnames)
 	r.Set("programs_by_family", kinds)
 	r.Set("context_x_kind_pairs", map[string]int{"cx": len(pairs["cx"]), "xc": len(pairs["xc"])})
-	r.Logf("programs: %d generated, %d distinct (%v); %d environments each (Q=%d); variants %v", len(progs), len(uniq)+len(xcs), kinds, len(table.Rows), table.Q, vnames)
+	r.Logf("programs: %d generated, %d distinct (%v); %d environments each (Q=%d); variants %v", len(progs), len(uniq)+len(cxs)+len(xcs), kinds, len(table.Rows), table.Q, vnames)
 
 	var works []*chunkWork
 	for _, f := range fams {
@@ -515,7 +527,7 @@ func programBinding(r *core.Run, cfgName string) {
 	}
 	// a mismatch is a violation when the specification confirms V8's trace of the INPUT in that environment
 	confirmMismatches(r, table, pends)
-	nprogs := len(uniq) + len(xcs)
+	nprogs := len(uniq) + len(cxs) + len(xcs)
 	r.AddEvaluations(evals)
 	r.AddTraces(validated)
 	r.Set("programs", nprogs)
